@@ -125,6 +125,19 @@ def optional_attrs():
             for n in ast.walk(tree):
                 if isinstance(n, ast.Dict) and n.values and all(isinstance(v_, ast.Attribute) for v_ in n.values):
                     names.update(v_.attr for v_ in n.values)
+        # and what the statement classes themselves declare optional: constructor parameters with default None
+        try:
+            import inspect
+            from mindsdb_sql.parser import ast as A
+            for cn in ('Select', 'Union', 'Intersect', 'Except', 'Insert', 'Update', 'Delete'):
+                K = getattr(A, cn, None)
+                if K is None:
+                    continue
+                for pn, pv in inspect.signature(K.__init__).parameters.items():
+                    if pv.default is None and pn not in ('self',):
+                        names.add(pn)
+        except Exception:
+            pass
         _OPTIONAL = names
     return _OPTIONAL
 
